@@ -410,6 +410,34 @@ var scenarios = []scenario{
 			c.replicate(2)
 		}
 	}, 3, true},
+	{"commit-inside-older-segment-after-rollover", func(c *simCluster) {
+		// the leader's unflushed tail crosses a segment boundary; the acknowledgement that arrives next only
+		// covers entries of the older segment: the commit must still make them durable on the leader
+		c.elect(1)
+		c.replicate(1)
+		n := c.nodes[1]
+		for k := 0; k < 6; k++ {
+			c.doClient(n, []entryType{entryUpdate, entryUpdate, entryUpdate})
+		}
+		// requests carrying these entries leave, the answers are held back
+		for _, fid := range sortedReplIDs(n.l) {
+			c.doFlr(n, fid) // consume the leader update
+			c.doFlr(n, fid) // write the request
+		}
+		first := n.r.log.CanLTE(1 << 62)
+		for k := 0; k < 60 && n.r.log.CanLTE(1<<62) == first; k++ {
+			c.doClient(n, []entryType{entryUpdate})
+		}
+		c.doClient(n, []entryType{entryUpdate, entryUpdate})
+		// now the answers for the first batch arrive
+		c.deliverAll(func(m *simMsg) bool { return m.kind == rpcAppendEntries })
+		for len(c.upd[1]) > 0 && n.cur == Leader {
+			c.doReplUpdate(n)
+		}
+		c.crash(1, true)
+		c.elect(2)
+		c.replicate(2)
+	}, 3, true},
 	{"install-over-conflicting-suffix", func(c *simCluster) {
 		// the deposed leader holds a long uncommitted suffix of its own term; the new leader commits other
 		// entries at those indices, snapshots and compacts them; the old leader then gets the snapshot: its
